@@ -46,6 +46,16 @@ CHECKS = {
          "Lite as transmitter, receiver and on both ends incl. full<->lite interop; all pairs over a 47-call lite configuration alphabet + walks; load_ack for lengths 0..34,40 x pipes -1..6 x FIFO fill 0..3."),
 }
 NOT_YET = {}
+def _addendum(cid):
+    """the 'Later rounds added: ...' sentence of the check's RULE string"""
+    src = open(os.path.join(HERE, "checks", cid.lower() + ".py")).read()
+    i = src.find('RULE += (" Later rounds added:')
+    if i < 0:
+        return ""
+    j = src.index('")\n', i)
+    return " " + src[i + len('RULE += (" '):j].replace('\\"', '"')  # RULE_ADD
+
+
 def main():
     props = [json.loads(l) for l in open(os.path.join(HERE, "properties.jsonl"))]
     checks = []
@@ -61,7 +71,7 @@ def main():
                 "evidence_file": "evidence/%s.json" % pid,
                 "replay_cmd_template": "./check %s --replay {path}" % pid,
                 "engine": "vsim+vmon",
-                "level_claimed": {"category": "exploration", "text": text, "design_ref": "DESIGN.md section " + ref},
+                "level_claimed": {"category": "exploration", "text": text + _addendum(pid), "design_ref": "DESIGN.md section " + ref + " and 10.6-10.10"},
                 "level_note": "Trusted base: the simulated nRF24L01(+) model (assumptions A1-A25, DESIGN.md 2.1 and 10.2), the virtual clock/scheduler, the reference models under refmodels/, and CPython 3.12. Claims are 'held on the executions observed', never 'verified'.",
                 "technique": TECH + tech,
             })
